@@ -72,9 +72,11 @@ def check_lane_functions(ctx, u, I):
         ctx.fn('phosg::' + key)
         conv = [x for x in walk(body_of(f)) if x.get('castKind') in ('FloatingToIntegral', 'IntegralToFloating', 'FloatingCast', 'FloatingToBoolean')]
         calls = [c for c in walk(body_of(f)) if c.get('kind') == 'CallExpr']
-        names = [call_name(c) for c in calls]
+        mp = memcpy_puns(body_of(f))
+        names = [call_name(c) for c in calls if not any(c is m_[0] for m_ in mp)]
         puns = [x for x in walk(body_of(f)) if x.get('kind') == 'UnaryOperator' and x.get('opcode') == '*' and
                 any(y.get('castKind') == 'BitCast' for y in walk(x)) and any(y.get('kind') == 'UnaryOperator' and y.get('opcode') == '&' for y in walk(x))]
+        puns = puns + [m_[0] for m_ in mp]
         ctx.check(not conv and names == [want] and len(puns) == 1, R, key + '|punning', f, 'bit pattern reinterpreted (no numeric conversion) around %s' % want,
                   'float form is not a pure reinterpretation around %s: conversions=%d calls=%s puns=%d' % (want, len(conv), names, len(puns)))
     # bswap<T> specialisations dispatch to the function of their own width
@@ -182,8 +184,22 @@ def check_wrapper(ctx, u, rec):
 
     def is_load(n):
         n = strip(n)
+        # through the class's own load() / conversion operator (themselves checked to be OnLoadSt::fn(value))
+        if n.get('kind') == 'CXXMemberCallExpr' and (member_call_object(n) is None or is_this(member_call_object(n))):
+            d = callee_decl(n, u)
+            if d is not None and (d.get('name') == 'load' or d.get('kind') == 'CXXConversionDecl') and not call_args(n):
+                return True
         rq = _fn_record(n, u)
         return rq is not None and norm(rq) == load_rec and len(call_args(n)) == 1 and _is_value(call_args(n)[0])
+
+    def stored_expr(a):
+        """E when statement a is `value = OnStoreSt::fn(E)` or `this->store(E)` (store() is checked to be that)"""
+        a = strip(a)
+        if a.get('kind') == 'BinaryOperator' and a.get('opcode') == '=' and _is_value(a['inner'][0]):
+            return is_store_of(a['inner'][1])
+        if a.get('kind') == 'CXXMemberCallExpr' and (member_call_object(a) is None or is_this(member_call_object(a))) and call_name(a) == 'store' and len(call_args(a)) == 1:
+            return call_args(a)[0]
+        return None
 
     def is_store_of(n):
         n = strip(n)
@@ -236,8 +252,8 @@ def check_wrapper(ctx, u, rec):
             why = 'body is not `value = OnStoreSt::fn(OnLoadSt::fn(value) %s delta); return *this;`' % op
             if len(stmts) == 2:
                 a = strip(stmts[0])
-                if a.get('kind') == 'BinaryOperator' and a.get('opcode') == '=' and _is_value(a['inner'][0]):
-                    arg = is_store_of(a['inner'][1])
+                if stored_expr(a) is not None:
+                    arg = stored_expr(a)
                     e = strip(arg) if arg is not None else None
                     if e is not None and e.get('kind') == 'BinaryOperator':
                         lhs, rhs = e['inner'][0], e['inner'][1]
@@ -262,8 +278,8 @@ def check_wrapper(ctx, u, rec):
             why = 'unrecognised body'
             if not post and len(stmts) == 2:
                 a = strip(stmts[0])
-                if a.get('kind') == 'BinaryOperator' and a.get('opcode') == '=' and _is_value(a['inner'][0]):
-                    e = strip(is_store_of(a['inner'][1]) or {})
+                if stored_expr(a) is not None:
+                    e = strip(stored_expr(a) or {})
                     if e and e.get('kind') == 'BinaryOperator' and e.get('opcode') == op and is_load(e['inner'][0]) and int_value(e['inner'][1]) == 1:
                         r = kids(stmts[1])[0] if stmts[1].get('kind') == 'ReturnStmt' and kids(stmts[1]) else None
                         if r is not None and is_load(r):
@@ -277,8 +293,8 @@ def check_wrapper(ctx, u, rec):
                 vd = kids(d)[0] if d.get('kind') == 'DeclStmt' and kids(d) else None
                 if vd is not None and kids(vd) and is_load(kids(vd)[-1]):
                     a = strip(stmts[1])
-                    if a.get('kind') == 'BinaryOperator' and a.get('opcode') == '=' and _is_value(a['inner'][0]):
-                        e = strip(is_store_of(a['inner'][1]) or {})
+                    if stored_expr(a) is not None:
+                        e = strip(stored_expr(a) or {})
                         okv = e and e.get('kind') == 'BinaryOperator' and e.get('opcode') == op and int_value(e['inner'][1]) == 1 and \
                             ((ref_decl(e['inner'][0]) or {}).get('id') == vd['id'] or is_load(e['inner'][0]))
                         r = kids(stmts[2])[0] if stmts[2].get('kind') == 'ReturnStmt' and kids(stmts[2]) else None
@@ -300,6 +316,29 @@ def check_wrapper(ctx, u, rec):
                 (ref_decl(is_store_of(a['inner'][1]) or {}) or {}).get('kind') == 'ParmVarDecl'
             ctx.check(ok, R, mkey + '|stores', m, 'value = OnStoreSt::fn(v)', 'does not store OnStoreSt::fn(v)')
     return n_ops
+
+
+def memcpy_puns(body):
+    """memcpy(&dst, &src, n) between two objects of n bytes each: a bit-pattern reinterpretation
+    (the aliasing-safe spelling of `*(T*)&x`)"""
+    out = []
+    for c in walk(body):
+        if c.get('kind') == 'CallExpr' and call_name(c) in ('memcpy', '__builtin_memcpy') and len(call_args(c)) == 3:
+            a, b, n_ = call_args(c)
+            sa, sb = strip_addr(a), strip_addr(b)
+            nb = int_value(n_)
+            if sa is not None and sb is not None and nb is not None and sizeof_type(dtype(sa)) == nb and sizeof_type(dtype(sb)) == nb:
+                out.append((c, sa, sb))
+    return out
+
+
+def strip_addr(n):
+    n = strip(n)
+    while n is not None and n.get('kind') in ('ImplicitCastExpr', 'CStyleCastExpr', 'CXXReinterpretCastExpr', 'CXXStaticCastExpr', 'ParenExpr') and kids(n):
+        n = strip(kids(n)[0])
+    if n is not None and n.get('kind') == 'UnaryOperator' and n.get('opcode') == '&':
+        return strip(kids(n)[0])
+    return None
 
 
 def check_converters(ctx, u):
@@ -334,6 +373,11 @@ def check_converters(ctx, u):
                         any(y.get('kind') == 'CXXReinterpretCastExpr' for y in walk(r)) and \
                         any(y.get('kind') == 'UnaryOperator' and y.get('opcode') == '&' and (ref_decl(y['inner'][0]) or {}).get('id') == p['id'] for y in walk(r)) and \
                         not any(y.get('castKind') in ('FloatingToIntegral', 'IntegralToFloating', 'FloatingCast') for y in walk(body_of(m)))
+                    if not ok and r is not None:
+                        # aliasing-safe spelling: `ResultT ret; memcpy(&ret, &v, sizeof(ResultT)); return ret;`
+                        mp = memcpy_puns(body_of(m))
+                        ok = len(mp) == 1 and (ref_decl(mp[0][2]) or {}).get('id') == p['id'] and (ref_decl(r) or {}).get('id') == (ref_decl(mp[0][1]) or {}).get('id') and \
+                            not any(y.get('castKind') in ('FloatingToIntegral', 'IntegralToFloating', 'FloatingCast') for y in walk(body_of(m)))
                     same = sizeof_type(ta[0]) == sizeof_type(ta[1]) and sizeof_type(ta[0]) is not None
                     ctx.check(ok and same, R, key + '|reinterpret', m, 'same-size reinterpretation of v', 'ident_st::fn is not a same-size reinterpretation of its argument (sizes %s/%s)' % (sizeof_type(ta[0]), sizeof_type(ta[1])))
     return n
